@@ -96,7 +96,7 @@ func Harness_C15_server() {
 			// the kinds that read or write the registry
 			kind = []int{1, 3, 4, 0, 2}[zzsym.Choice("kind", 5)]
 		} else {
-			kind = zzsym.Choice("kind", 10)
+			kind = zzsym.Choice("kind", zzsym.Param("kinds", 12))
 		}
 		ti := zzsym.Choice("text", zzsym.Param("texts", len(c15Texts)))
 		text, other := c15Texts[ti], c15Texts[c15Other[ti]]
@@ -107,7 +107,22 @@ func Harness_C15_server() {
 			r.Header.Set("Content-Type", "application/json")
 		}
 		wantExec, wantStatus, wantErr := "", 200, ""
+		get := func(text, ext string) {
+			r = &http.Request{Method: "GET", Header: http.Header{}, URL: &url.URL{Path: "/", RawQuery: "query=" + url.QueryEscape(text) + "&extensions=" + url.QueryEscape(ext)}}
+		}
 		switch kind {
+		case 10: // text + its own hash over GET: registers like the POST does
+			get(text, c15Ext(c15Sum(text)))
+			wantExec = text
+			model[c15Sum(text)] = text
+			touch(c15Sum(text))
+			if lruCap > 0 && len(order) > lruCap {
+				delete(model, order[0])
+				order = order[1:]
+			}
+		case 11: // text + the other text's hash over GET: rejected
+			get(text, c15Ext(c15Sum(other)))
+			wantErr = "provided APQ hash does not match query"
 		case 0: // text only
 			post(`{"query":` + string(q) + `}`)
 			wantExec = text
